@@ -243,15 +243,9 @@ func (sc *Scheduler) Schedule(ctx context.Context, g *ExecutionGraph, done chan 
 					}
 					break ExecRepeat
 				}
-				// finish the node
-				if node.State().Status == NodeStatusRunning {
-					if executed {
-						node.setStatus(NodeStatusSuccess)
-					} else {
-						// stopped before the command was started
-						node.setStatus(NodeStatusCancel)
-					}
-				}
+				// finish the node: running -> finished, or canceled when the run was
+				// stopped before the command was started
+				node.finishIfRunning(executed)
 				if err := teardown(); err != nil {
 					sc.setLastError(err)
 					node.setStatus(NodeStatusError)
